@@ -14,8 +14,8 @@ Open Scope Z_scope.
 (* one observed event: instant (ns since the start of the scenario), label, result *)
 Record ev := mkEv { e_t : Z; e_l : label; e_r : res }.
 
-(* c_need_acq: the scenario ends with the death of the holder and a parked contender
-   that must acquire afterwards *)
+(* c_need_acq: the scenario ends with the death of the holder; the contender parked in
+   LockWithCtx (contender 2; contender 1 is the one polling TryLock) must acquire afterwards *)
 Record case := mkCase { c_id : N; c_ttl : Z; c_need_acq : bool; c_evs : list ev }.
 
 Definition res_eqb (a b : res) : bool :=
@@ -87,7 +87,7 @@ Fixpoint acquired_after_death (dead : bool) (evs : list ev) : bool :=
   | e :: t =>
       match e_l e, e_r e with
       | Die, _ => acquired_after_death true t
-      | ContenderTry _ _, RCreated _ => dead || acquired_after_death dead t
+      | ContenderTry n _, RCreated _ => (dead && (n =? 2)) || acquired_after_death dead t
       | _, _ => acquired_after_death dead t
       end
   end.
